@@ -97,6 +97,14 @@ impl ParseData for FromMetaOptions {
 
         match self.base.data {
             Data::Struct(ref data) => {
+                // Only unit, newtype and named-field structs have a meta representation.
+                if data.is_tuple() && !data.is_newtype() {
+                    errors.push(
+                        Error::custom("`FromMeta` cannot be derived for tuple structs that do not have exactly one field")
+                            .with_span(&self.base.ident),
+                    );
+                }
+
                 if let Some(from_word) = &self.from_word {
                     if data.is_unit() {
                         errors.push(Error::custom("`from_word` cannot be used on unit structs because it conflicts with the generated impl").with_span(from_word));
@@ -106,6 +114,16 @@ impl ParseData for FromMetaOptions {
                 }
             }
             Data::Enum(ref data) => {
+                // Tuple variants other than newtypes have no meta representation either.
+                for variant in data {
+                    if variant.is_unsupported_tuple() {
+                        errors.push(
+                            Error::custom("`FromMeta` cannot be derived for tuple variants that do not have exactly one field")
+                                .with_span(&variant.ident),
+                        );
+                    }
+                }
+
                 let word_variants: Vec<_> = data
                     .iter()
                     .filter_map(|variant| variant.word.as_ref())
